@@ -137,13 +137,14 @@ func (c c06) Generate(e *Env) ([]*Case, error) {
 		{"default", "seedA"}, {"seedA", "default"},
 		{"literals", "literals+X1"}, {"literals+X1", "literals"},
 		{"literals+X1", "literals+X2"},
-		{"default", "default+X1"}, {"default+X1", "default+X2"},
-		{"default", "default+tags"}, {"seedA", "seedA+X1"},
+		{"default", "default+X1"},
+		{"default", "default+tags"},
 		{"default", "ctrlflow"}, {"ctrlflow", "default"},
 		{"default", "gogarble"}, {"gogarble", "default"},
 	}
 	if thorough {
 		pairs = append(pairs, [][2]string{
+			{"default+X1", "default+X2"}, {"seedA", "seedA+X1"},
 			{"seedA", "seedB"}, {"seedB", "seedA"}, {"default", "gogarble"}, {"gogarble", "default"},
 			{"default", "ctrlflow"}, {"ctrlflow", "default"}, {"literals", "lit-seedA"}, {"lit-seedA", "seedA"},
 			{"tiny", "literals"}, {"gogarble", "tiny"}, {"lit-seedA", "lit-seedA+X1"}, {"tiny", "tiny+X1"},
@@ -165,7 +166,7 @@ func (c c06) Generate(e *Env) ([]*Case, error) {
 	add(b("seedA"), ed(7), b("seedA"), again)
 	add(b("tiny"), ed(7), b("tiny"))
 	// Seeded histories.
-	n := 10
+	n := 6
 	if thorough {
 		n = 130
 	}
